@@ -66,6 +66,9 @@ SK = {
     'two-models': ("SELECT * FROM {A}.tbl1 AS t JOIN {M}.pred AS m JOIN {P}.pred2 AS m2", {'int1': {'tbl1'}}, [('mindsdb', ['pred']), ('proj', ['pred2'])]),
     'select-from-model': ("SELECT p FROM {M}.pred WHERE x = 1", {}, [('mindsdb', ['pred'])]),
     'ts-model-join': ("SELECT * FROM {A}.tbl1 AS t JOIN {M}.tspred AS m WHERE t.ts > LATEST", {'int1': {'tbl1'}}, [('mindsdb', ['tspred'])]),
+    'ts-model-join-subselect': ("SELECT * FROM (SELECT * FROM {A}.tbl1) AS t JOIN {M}.tspred AS m WHERE t.ts > LATEST", {'int1': {'tbl1'}}, [('mindsdb', ['tspred'])]),
+    'ts-model-first-subselect': ("SELECT * FROM {M}.tspred AS m JOIN (SELECT * FROM {A}.tbl1) AS t WHERE t.ts > LATEST", {'int1': {'tbl1'}}, [('mindsdb', ['tspred'])]),
+    'ts-model-first': ("SELECT * FROM {M}.tspred AS m JOIN {A}.tbl1 AS t WHERE t.ts > LATEST", {'int1': {'tbl1'}}, [('mindsdb', ['tspred'])]),
     'group-order-limit': ("SELECT t1.a, count(t2.b) FROM {A}.tbl1 AS t1 JOIN {B}.tbl2 AS t2 ON t1.id = t2.id GROUP BY t1.a ORDER BY t1.a LIMIT 3",
                           {'int1': {'tbl1'}, 'int2': {'tbl2'}}, []),
     'api-db': ("SELECT a FROM apidb.tbl5 WHERE a > 1 AND b = 2 ORDER BY a LIMIT 2", {'apidb': {'tbl5'}}, []),
